@@ -563,6 +563,7 @@ def run(ctx) -> str:
     ctx.guarded("U8", lambda: rule_u8(ctx, box.get("m") or {}))
     # SMT string literals: non-ASCII escaping before Z3 parsing, unicode unescape of literal values, self-escaped escape character (shared with C17)
     ctx.guarded("U9", lambda: c17.rule_s5(ctx, "U9"))
+    ctx.guarded("U15", lambda: c17.rule_s6(ctx, "U15"))
     from . import c05
 
     ctx.guarded("U10", lambda: c05.rule_r9(ctx, "U10", only_functions={"smt_expr_to_str"}))
